@@ -55,6 +55,7 @@ class Report:
 
     def need(self, key, minimum, what=None):
         """Asserts a monitor counter reached a minimum, else the run is inconclusive."""
+        self.extra.setdefault("monitor_minimums", {})[key] = [int(self.counters.get(key, 0)), int(minimum)]
         if self.counters.get(key, 0) < minimum:
             self.inconclusive.append("%s: monitor counter %s = %d < %d" % (
                 what or "coverage", key, self.counters.get(key, 0), minimum))
